@@ -215,6 +215,12 @@ func (o *obs) dispatchHook(isEmu bool) sim.Hook {
 		case *protocol.WGCompletionMsg:
 			switch ctx.Pos {
 			case sim.HookPosPortMsgSend:
+				// the message as it was accepted by the port: the groups its RspTo list names, in order
+				ids := make([]int, len(m.RspTo))
+				for i, id := range m.RspTo {
+					ids[i] = o.reqG[id]
+				}
+				r.emit("WGMsg", ab.Rec{"ids": ids})
 				for _, id := range m.RspTo {
 					g := o.reqG[id]
 					if g != 0 {
